@@ -190,11 +190,13 @@ def digits_of(text):
     return nums
 
 
-def h14c_ms(ms, largest, smallest, style, auto):
+def h14c_ms(ms, largest, smallest, style, auto, window=None):
     """durations at millisecond resolution: the displayed components, read back unit by unit, give the duration truncated
     to the smallest unit shown; with automatic units nothing is cut off"""
     assume(largest <= smallest)
     assume(0 <= ms)
+    if window is not None:
+        assume(window[0] <= ms <= window[1])
     cell = object.__new__(DurationCell)
     cell.row = 0
     cell.col = 0
@@ -221,21 +223,29 @@ def h14c_ms(ms, largest, smallest, style, auto):
         assert 1 <= len(nums) <= len(UNITS_MS) - UNITS_MS.index(big)
         shown = UNITS_MS[UNITS_MS.index(big): UNITS_MS.index(big) + len(nums)]
         cover("auto-units")
-        total = 0
-        assert len(nums) >= 1
-        return
-    shown = [u for u in UNITS if largest <= u <= smallest]
+    else:
+        shown = [u for u in UNITS_MS if largest <= u <= smallest]
     assert len(nums) == len(shown)
     total = 0
     for v, u in zip(nums, shown):
-        total += v * UNIT_SECONDS[u]
-    small = UNIT_SECONDS[shown[-1]]
-    assert total == (seconds // small) * small
+        total += v * UNIT_MS[u]
+    cut = UNIT_MS[shown[-1]]
+    assert total == (ms // cut) * cut
+    if auto:
+        assert total == ms
     for v, u in zip(nums[1:], shown[1:]):
         prev = shown[shown.index(u) - 1]
-        assert v * UNIT_SECONDS[u] < UNIT_SECONDS[prev]
+        assert v * UNIT_MS[u] < UNIT_MS[prev]
+    # style decorations
+    if style == int(DurationStyle.COMPACT) and shown[-1] == DurationUnits.MILLISECOND and len(shown) > 1:
+        assert text[-4] == "." and len(text.split(".")[-1]) == 3
 
 
+MS_MAX = 315576000000 + 5000       # 10 years
+WEEK_MS = 604800000
+# thorough tier: everything up to 10^7 ms, and windows of +-2 s around one week, two weeks and ten years
+MS_WINDOWS = [(0, 10 ** 7), (WEEK_MS - 2000, WEEK_MS + 2000), (2 * WEEK_MS - 2000, 2 * WEEK_MS + 2000),
+              (315576000000 - 2000, 315576000000 + 2000)]
 UCODES = [int(u) for u in UNITS]
 UCODES_MS = [int(u) for u in UNITS_MS]
 
@@ -265,7 +275,7 @@ HARNESSES = [
 ]
 HARNESSES.append(
     Harness("H14c-ms", h14c_ms,
-            lambda tier: dict(ms=IntDom(0, 10 ** 7 if tier == "quick" else 315576000000),
+            lambda tier: dict(ms=IntDom(0, 10 ** 7 if tier == "quick" else MS_MAX), window=Cases([None] if tier == "quick" else MS_WINDOWS),
                               largest=Cases([1, 4, 16, 32] if tier == "quick" else UCODES_MS),
                               smallest=Cases([16, 32] if tier == "quick" else UCODES_MS),
                               style=Cases([int(DurationStyle.COMPACT), int(DurationStyle.SHORT), int(DurationStyle.LONG)]),
